@@ -65,7 +65,7 @@ PROPS = {
                    "every call's error, threshold triggers (exactly the matching group, exactly once) and internal fan-out are compared with a reference model.",
         level_note="Single-threaded histories (the bubble cannot pre-empt inside the store's mutex); signatures are opaque bytes (the store never verifies them); 2t>n; exempt-duty cap not reached.",
         runs={
-            "quick": [dict(test="TestC07Model", checks=8000, shards=4), dict(test="TestC07Regression", mode="plain")],
+            "quick": [dict(test="TestC07Model", checks=8000, shards=4), dict(test="TestC07Regression", mode="plain"), dict(test="TestC07Threads", checks=2000, shrinktime="20s")],
             "thorough": [dict(test="TestC07Model", checks=150000, shards=12, timeout=3000), dict(test="TestC07Regression", mode="plain"),
                          dict(test="TestC07Threads", checks=6000, shards=3, race=True, timeout=3000)],
         },
@@ -77,7 +77,7 @@ PROPS = {
                    "after every step and quiescence each reader whose key is stored must have returned exactly the stored value and every other reader must still be blocked.",
         level_note="synctest.Wait() defines 'as soon as stored' (no goroutine can make progress any more); interleavings inside a mutex section are not controlled (race tier only).",
         runs={
-            "quick": [dict(test="TestC17Model", checks=8000, shards=4), dict(test="TestC17Regression", mode="plain")],
+            "quick": [dict(test="TestC17Model", checks=8000, shards=4), dict(test="TestC17Regression", mode="plain"), dict(test="TestC17Threads", checks=2000, shrinktime="20s")],
             "thorough": [dict(test="TestC17Model", checks=150000, shards=12, timeout=3000), dict(test="TestC17Regression", mode="plain"),
                          dict(test="TestC17Threads", checks=4000, shards=3, race=True, timeout=3000)],
         },
